@@ -53,6 +53,11 @@ Theorem C04_gate_is_the_sources : forall jobs s,
 Proof. exact gate_tie. Qed.
 Print Assumptions C04_gate_is_the_sources.
 
+(* ... and so is the condition under which a launched operation is given a slot *)
+Theorem C04_slot_rule_is_the_sources : forall par jobs, gen_wants_slot par jobs = par && Nat.ltb 1 jobs.
+Proof. exact slot_tie. Qed.
+Print Assumptions C04_slot_rule_is_the_sources.
+
 (* non-vacuity: three independent parallelizable operations under jobs = 2 run two at a time
    with slots 0 and 1, the third reuses the slot freed first *)
 Definition ex_plan : plan :=
